@@ -489,7 +489,8 @@ def prop_c18(prop, tier, seed, verdict, tree):
             for ch in (chunks if propnum != 10 else [(1, 255)]):
                 other.append(("contmon.cpp", ["-DCONT_PROP=%d" % propnum, "-DCONT_LO=%d" % ch[0], "-DCONT_HI=%d" % ch[1], "-pthread"],
                               "contmon%d_%d" % (propnum, ch[0]), ["--cases", "6" if tier == "quick" else "40", "--shards", "16", "--shard", "0"]))
-        for n, h in ([(1, 1), (2, 0), (3, 1), (9, 0), (33, 1)] if tier == "quick" else [(1, 1), (2, 0), (3, 1), (9, 0), (33, 1), (64, 0), (129, 1), (255, 0)]):
+        # incl. the sizes at which the serial buffer grows by a byte (127 -> 128 states)
+        for n, h in ([(1, 1), (2, 0), (3, 1), (9, 0), (33, 1), (127, 1), (128, 0)] if tier == "quick" else [(1, 1), (2, 0), (3, 1), (9, 0), (33, 1), (64, 0), (127, 0), (127, 1), (128, 0), (128, 1), (129, 1), (255, 0)]):
             other.append(("widemon.cpp", ["-DWIDE_N=%d" % n, "-DWIDE_HEAD=%d" % h], "widemon-%d-%d" % (n, h), ["--prop", "ALL"]))
 
         def build_run_other(item):
